@@ -1,6 +1,9 @@
 package remoting
 
 import (
+	"encoding/binary"
+	"fmt"
+	"io"
 	"net"
 	"time"
 
@@ -26,13 +29,25 @@ func (h *Handshake) Send(conn net.Conn) error {
 	return err
 }
 
+// maxHandshakeAddrLen 握手中广告地址的最大长度
+const maxHandshakeAddrLen = 4096 - 4
+
 func (h *Handshake) Wait(conn net.Conn) error {
-	var buf = make([]byte, 4096)
 	if err := conn.SetReadDeadline(time.Now().Add(time.Second * 10)); err != nil {
 		return err
 	}
-
-	if _, err := conn.Read(buf); err != nil {
+	// 握手报文为 4 字节长度 + 地址串。TCP 是字节流：一次 Read 既可能只返回报文的一部分，
+	// 也不应读走报文之后的数据，因此按长度精确读取。
+	var buf = make([]byte, 4, 64)
+	if _, err := io.ReadFull(conn, buf); err != nil {
+		return err
+	}
+	addrLen := binary.BigEndian.Uint32(buf)
+	if addrLen > maxHandshakeAddrLen {
+		return fmt.Errorf("handshake: advertise address too long: %d", addrLen)
+	}
+	buf = append(buf, make([]byte, addrLen)...)
+	if _, err := io.ReadFull(conn, buf[4:]); err != nil {
 		return err
 	}
 	reader := messages.NewReaderFromPool(buf)
